@@ -32,6 +32,54 @@ def reference_paths():
         return set(json.load(fh)["paths"])
 
 
+def reference_closures():
+    """{parent path: [signature, ..]} of the closures of the reference tree"""
+    with open(REFERENCE) as fh:
+        out = {}
+        for parent, sig in json.load(fh).get("closures", []):
+            out.setdefault(parent, []).append(sig)
+        return out
+
+
+def closure_signature(raw):
+    """What a closure is, independent of its number: parameters, captured variables and the functions it calls."""
+    return [raw.get("arg_count"), len(raw.get("upvars") or []), sorted(c for c in _callees_list(raw))]
+
+
+def _callees_list(raw):
+    out = []
+    for blk in raw["blocks"]:
+        t = blk["t"]
+        if t["k"] == "call":
+            n = t.get("res") or t.get("decl")
+            if n:
+                out.append(n)
+    return out
+
+
+def new_closures(raws):
+    """Paths of the closures no closure of the reference tree (same enclosing function, same signature) accounts for."""
+    ref = reference_closures()
+    if not ref:
+        return None
+    by_parent = {}
+    for path in sorted(raws):
+        if raws[path]["kind"] == "Closure":
+            by_parent.setdefault(path.rsplit("::{closure#", 1)[0], []).append(path)
+    new = set()
+    for parent, paths in by_parent.items():
+        pool = list(ref.get(parent, []))
+        if len(paths) <= len(pool):
+            continue            # as many closures as on the reference tree (or fewer): none was added
+        for path in paths:
+            sig = closure_signature(raws[path])
+            if sig in pool:
+                pool.remove(sig)
+            else:
+                new.add(path)
+    return new
+
+
 def _has_opaque(raw):
     for blk in raw["blocks"]:
         for s in blk["s"]:
@@ -232,13 +280,146 @@ def _fn_refs(raw, names):
     return {n for n in names if ("{" + n + "}") in txt or (n + "}") in txt or ("fn item " + n) in txt}
 
 
-def inline_new(raws, reference):
-    """raws: {path: raw body dict} of the whole program (mutated in place).
+# ---------------------------------------------------------------------------
+# Option / Result combinators applied to a closure that does not exist on the reference tree
+#
+# `x.map(|v| e)` for `match x { Some(v) => Some(e), None => None }` (and its relatives) moves the statements a rule reads into a
+# closure body.  core's definitions of these combinators are one `match` each; a call whose closure argument is *new* is replaced by
+# that match, the closure being called directly in the arm that uses it - and then inlined like any other new function.
+
+_OPT, _RES = "std::option::Option", "std::result::Result"
+_VARIANTS = {_OPT: [[0, "None"], [1, "Some"]], _RES: [[0, "Ok"], [1, "Err"]]}
+#  callee suffix: (receiver enum, variant the closure runs on, closure takes the payload, index of the closure argument,
+#                  wrap the closure's result in (enum, variant) or None, what the other variant yields)
+_COMBINATORS = {
+    "option::Option::<T>::map": (_OPT, "Some", True, 1, (_OPT, "Some"), ("unit", _OPT, "None")),
+    "option::Option::<T>::and_then": (_OPT, "Some", True, 1, None, ("unit", _OPT, "None")),
+    "option::Option::<T>::is_some_and": (_OPT, "Some", True, 1, None, ("bool", False)),
+    "option::Option::<T>::is_none_or": (_OPT, "Some", True, 1, None, ("bool", True)),
+    "option::Option::<T>::map_or": (_OPT, "Some", True, 2, None, ("arg", 1)),
+    "option::Option::<T>::unwrap_or_else": (_OPT, "None", False, 1, None, ("payload",)),
+    "option::Option::<T>::ok_or_else": (_OPT, "None", False, 1, (_RES, "Err"), ("rewrap", _RES, "Ok")),
+    "result::Result::<T, E>::map": (_RES, "Ok", True, 1, (_RES, "Ok"), ("rewrap", _RES, "Err")),
+    "result::Result::<T, E>::map_err": (_RES, "Err", True, 1, (_RES, "Err"), ("rewrap", _RES, "Ok")),
+    "result::Result::<T, E>::and_then": (_RES, "Ok", True, 1, None, ("rewrap", _RES, "Err")),
+    "result::Result::<T, E>::is_ok_and": (_RES, "Ok", True, 1, None, ("bool", False)),
+    "result::Result::<T, E>::unwrap_or_else": (_RES, "Err", True, 1, None, ("payload",)),
+}
+
+
+def _vi(enum, name):
+    return [v for v, n in _VARIANTS[enum] if n == name][0]
+
+
+def desugar_combinators(raws, reference):
+    """Rewrites, in place, every call of a combinator above whose closure argument is a closure absent from the reference tree into
+    the `match` it stands for.  Returns the set of closure paths that are now called directly (to be inlined by inline_new)."""
+    direct = set()
+    fresh = new_closures(raws)
+    if fresh is None:
+        return direct
+    for path, raw in raws.items():
+        if _has_opaque(raw):
+            continue
+        nb0 = len(raw["blocks"])
+        for bi in range(nb0):
+            t = raw["blocks"][bi]["t"]
+            if t["k"] != "call" or t.get("target") is None:
+                continue
+            name = t.get("res") or t.get("decl") or ""
+            spec = None
+            for suf, sp in _COMBINATORS.items():
+                if name.endswith(suf) and name[:-len(suf)] in ("std::", "core::"):
+                    spec = sp
+            if spec is None:
+                continue
+            enum, on, takes, ci, wrap, other = spec
+            if len(t["args"]) <= ci:
+                continue
+            ca = t["args"][ci]
+            cp = ca.get("m") or ca.get("c")
+            recv = t["args"][0].get("m") or t["args"][0].get("c")
+            if cp is None or cp["pr"] or recv is None:
+                continue
+            d = _single_def(raw, cp["l"])
+            if d is None or d.get("r", {}).get("k") != "agg" or d["r"].get("ak") != "closure":
+                continue
+            cpath = d["r"].get("path")
+            cl = raws.get(cpath)
+            if cl is None or cpath not in fresh or cl["kind"] != "Closure" or cl["arg_count"] != (2 if takes else 1):
+                continue
+            if other[0] == "arg" and len(t["args"]) <= other[1]:
+                continue
+            line = (t.get("span") or {}).get("lo") or 0
+            span = t.get("span")
+            locs = raw["locals"]
+
+            def newlocal(ty):
+                locs.append({"ty": ty, "mut": True})
+                return len(locs) - 1
+            disc = newlocal("isize")
+            res = newlocal(cl["locals"][0]["ty"])
+            rty = locs[recv["l"]]["ty"] if not recv["pr"] else "?"
+            blocks = raw["blocks"]
+            b_on, b_wrap, b_other, b_unr = len(blocks), len(blocks) + 1, len(blocks) + 2, len(blocks) + 3
+            cont = t["target"]
+            dest = t["dest"]
+            other_variant = [n for _v, n in _VARIANTS[enum] if n != on][0]
+            # the arm that runs the closure
+            on_stmts = []
+            env_ty = cl["locals"][1]["ty"]
+            if env_ty.startswith("&"):
+                env = newlocal(env_ty)
+                on_stmts.append({"k": "assign", "p": {"l": env, "pr": []}, "line": line,
+                                 "r": {"k": "ref", "bk": "mut" if env_ty.startswith("&mut") else "shared", "p": {"l": cp["l"], "pr": []}}})
+                cargs = [{"m": {"l": env, "pr": []}}]
+            else:
+                cargs = [{"m": {"l": cp["l"], "pr": []}}]
+            if takes:
+                pay = newlocal(cl["locals"][2]["ty"])
+                on_stmts.append({"k": "assign", "p": {"l": pay, "pr": []}, "line": line,
+                                 "r": {"k": "use", "o": {"m": {"l": recv["l"], "pr": list(recv["pr"]) + [{"dc": on, "vi": _vi(enum, on)}, {"f": 0, "n": "0"}]}}}})
+                cargs.append({"m": {"l": pay, "pr": []}})
+            blocks.append({"s": on_stmts, "t": {"k": "call", "decl": cpath, "res": cpath, "res_kind": "Item", "args": cargs,
+                                                "dest": {"l": res, "pr": []}, "target": b_wrap, "span": span}})
+            if wrap is None:
+                r_ = {"k": "use", "o": {"m": {"l": res, "pr": []}}}
+            else:
+                r_ = {"k": "agg", "ak": "adt", "path": wrap[0], "variant": wrap[1], "vi": _vi(wrap[0], wrap[1]), "fields": ["0"], "ops": [{"m": {"l": res, "pr": []}}]}
+            blocks.append({"s": [{"k": "assign", "p": dest, "r": r_, "line": line}], "t": {"k": "goto", "target": cont, "span": span}})
+            # the other arm
+            opay = {"m": {"l": recv["l"], "pr": list(recv["pr"]) + [{"dc": other_variant, "vi": _vi(enum, other_variant)}, {"f": 0, "n": "0"}]}}
+            if other[0] == "unit":
+                r2 = {"k": "agg", "ak": "adt", "path": other[1], "variant": other[2], "vi": _vi(other[1], other[2]), "fields": [], "ops": []}
+            elif other[0] == "bool":
+                r2 = {"k": "use", "o": {"k": {"ty": "bool", "v": {"bool": other[1]}}}}
+            elif other[0] == "arg":
+                r2 = {"k": "use", "o": t["args"][other[1]]}
+            elif other[0] == "payload":
+                r2 = {"k": "use", "o": opay}
+            else:
+                r2 = {"k": "agg", "ak": "adt", "path": other[1], "variant": other[2], "vi": _vi(other[1], other[2]), "fields": ["0"], "ops": [opay]}
+            blocks.append({"s": [{"k": "assign", "p": dest, "r": r2, "line": line}], "t": {"k": "goto", "target": cont, "span": span}})
+            blocks.append({"s": [], "t": {"k": "unreachable", "span": span}})
+            pre = blocks[bi]
+            pre["s"].append({"k": "assign", "p": {"l": disc, "pr": []}, "line": line,
+                             "r": {"k": "discr", "p": {"l": recv["l"], "pr": list(recv["pr"])}, "ty": rty, "variants": _VARIANTS[enum]}})
+            arms = [[_vi(enum, on), b_on], [_vi(enum, other_variant), b_other]]
+            pre["t"] = {"k": "switch", "discr": {"m": {"l": disc, "pr": []}}, "ty": "isize", "arms": sorted(arms), "otherwise": b_unr, "span": span,
+                        "desugared": name}
+            direct.add(cpath)
+            raw.setdefault("desugared", []).append([name, cpath])
+    return direct
+
+
+def inline_new(raws, reference, direct=()):
+    """raws: {path: raw body dict} of the whole program (mutated in place).  `direct`: closures that desugar_combinators turned into
+    directly called functions.
     Returns a report: {"inlined": [[caller, callee, n_sites]], "removed": [paths], "skipped": [[callee, reason]]}."""
     new = {}
     skipped = []
     for p, r in raws.items():
-        if p in reference or r["kind"] not in ("Fn", "AssocFn"):
+        if p in reference or (r["kind"] not in ("Fn", "AssocFn") and p not in direct):
             continue
         # closures / consts nested in a new function follow their parent: never callees themselves
         if r.get("impl_trait") or r.get("trait_default_of"):
